@@ -970,6 +970,9 @@ def _cost_twice(view, wid):
     f = d["args"].get("cost")
     if f is None:
         return 0
+    if "$" in f:
+        # a cost function declared as an object of its own (its attributes may have been assigned afterwards)
+        f = view.dd[f["$"]]
     tot = 0
     for (_t, bs, be, _k) in wb[wid]:
         if be < bs:
